@@ -176,6 +176,39 @@ theorem code_SetAccessToken_keeps_refresh (sd : Go.SessData) (tok : Go.Str) (fue
       Code.SessionData_GetRefreshToken fuel sd' = Code.SessionData_GetRefreshToken fuel sd :=
   SetAccessToken_keeps_refresh sd tok fuel hwf hwr hchunks hdec hne hf hterm
 
+open Oidc.Generated Oidc.CodeRefine in
+/-- session.go's ten string accessors of the main session as translated (`GetCSRF`/`SetCSRF`, `GetNonce`/`SetNonce`,
+    `GetCodeVerifier`/`SetCodeVerifier`, `GetEmail`/`SetEmail`, `GetIncomingPath`/`SetIncomingPath`): each getter returns exactly the
+    string its setter was given — no trimming, no case folding, no truncation — and no setter changes what another field's getter
+    returns -/
+theorem code_main_fields (sd : Go.SessData) (v : Go.Str) :
+    Code.SessionData_GetCSRF (Code.SessionData_SetCSRF sd v) = v ∧
+    Code.SessionData_GetNonce (Code.SessionData_SetNonce sd v) = v ∧
+    Code.SessionData_GetCodeVerifier (Code.SessionData_SetCodeVerifier sd v) = v ∧
+    Code.SessionData_GetEmail (Code.SessionData_SetEmail sd v) = v ∧
+    Code.SessionData_GetIncomingPath (Code.SessionData_SetIncomingPath sd v) = v ∧
+    Code.SessionData_GetEmail (Code.SessionData_SetCSRF sd v) = Code.SessionData_GetEmail sd ∧
+    Code.SessionData_GetEmail (Code.SessionData_SetIncomingPath sd v) = Code.SessionData_GetEmail sd ∧
+    Code.SessionData_GetCSRF (Code.SessionData_SetEmail sd v) = Code.SessionData_GetCSRF sd ∧
+    Code.SessionData_GetNonce (Code.SessionData_SetCSRF sd v) = Code.SessionData_GetNonce sd ∧
+    Code.SessionData_GetCodeVerifier (Code.SessionData_SetNonce sd v) = Code.SessionData_GetCodeVerifier sd ∧
+    Code.SessionData_GetIncomingPath (Code.SessionData_SetEmail sd v) = Code.SessionData_GetIncomingPath sd := by
+  refine ⟨mainGet_mainSet _ sd v, mainGet_mainSet _ sd v, mainGet_mainSet _ sd v, mainGet_mainSet _ sd v, mainGet_mainSet _ sd v,
+    mainGet_mainSet_other _ _ (by decide) sd v, mainGet_mainSet_other _ _ (by decide) sd v, mainGet_mainSet_other _ _ (by decide) sd v,
+    mainGet_mainSet_other _ _ (by decide) sd v, mainGet_mainSet_other _ _ (by decide) sd v, mainGet_mainSet_other _ _ (by decide) sd v⟩
+
+open Oidc.Generated Oidc.CodeRefine in
+/-- writing a field of the main session does not change what is read of either token (the main session being another session than
+    the tokens' and their chunks') -/
+theorem code_main_fields_keep_tokens (fuel : Nat) (sd : Go.SessData) (v : Go.Str)
+    (ha : sd.accessSession ≠ sd.mainSession) (hac : ∀ i q, (i, q) ∈ sd.accessTokenChunks → q ≠ sd.mainSession) :
+    Code.SessionData_GetAccessToken fuel (Code.SessionData_SetEmail sd v) = Code.SessionData_GetAccessToken fuel sd ∧
+    Code.SessionData_GetAccessToken fuel (Code.SessionData_SetCSRF sd v) = Code.SessionData_GetAccessToken fuel sd ∧
+    Code.SessionData_GetAccessToken fuel (Code.SessionData_SetIncomingPath sd v) = Code.SessionData_GetAccessToken fuel sd := by
+  simp only [GetAccessToken_eq]
+  exact ⟨getTok_mainSet accessSide accessSide_ok fuel _ sd v ha hac, getTok_mainSet accessSide accessSide_ok fuel _ sd v ha hac,
+    getTok_mainSet accessSide accessSide_ok fuel _ sd v ha hac⟩
+
 /-- a state that meets the hypotheses (premises satisfiable): a request without chunk cookies, a codec that prepends one byte -/
 def exampleSD : Go.SessData :=
   ⟨true, [], fun _ => none, 86400, fun t => 'z' :: t, fun t => t.drop 1, ['m'],
